@@ -151,12 +151,18 @@ def unghost_builder(ex):
 
 
 # ---------------------------------------------------------------- one step of the lexer
-def step_lemma(k_before, k_after):
+def step_lemma(k_before, k_after, classes=None):
+    """classes: optional per-character alphabets (lists of inclusive (lo, hi) character ranges) for the k_after
+    characters left: the same obligations on a family of longer tokens of a fixed shape"""
     def body(L):
         L.ex.string_model = True
         lb0, L.ex.loop_bound = L.ex.loop_bound, 5 * k_after + 8        # 4 bit-appends per hex digit share one loop head
         try:
-            r, lex, txt, cons = mk_lex(L, "lx", k_before, k_after)
+            r, lex, txt, cons = mk_lex(L, "lx", k_before, k_after, ascii=classes is not None and k_before == 0)
+            cons = list(cons)
+            if classes is not None:
+                for c, cl in zip(txt.sym.chars[k_before:], classes):
+                    cons.append(z3.Or(*[z3.And(z3.UGE(c, ord(a)), z3.ULE(c, ord(b))) for a, b in cl]))
             outs = L.run(find_fn(L, "next", "&mut lex::Lex"), [r], cons, {"lx": r})
         finally:
             L.ex.string_model = False
@@ -412,16 +418,19 @@ def print_int_lemma(L):
     cell = Enum("cell::Cell", "Int", Struct("cell::Cell::Int", {0: n}))
     outs = fmt_run(L, cell, [])
     L.witness(outs, lambda o: o.kind == "return" and o.value.variant == "Ok", "an integer prints")
-    cex = lambda m: {"lines": ["push int %d" % (lambda v: v - (1 << 128) if v >> 127 else v)(m.eval(n.t, model_completion=True).as_long()), "stack", "eval dup str>number"], "expect": [("no_panic",)]}
+    def cex(m):
+        v = m.eval(n.t, model_completion=True).as_long()
+        v = v - (1 << 128) if v >> 127 else v
+        return {"lines": ["push int %d" % v, "stack"], "expect": [("no_panic",), ("print_int_spec", v)]}
     for o in outs:
         if o.kind != "return" or o.value.variant != "Ok":
-            L.fail(o, "printing an integer neither panics nor fails")
+            L.fail(o, "printing an integer neither panics nor fails", cex=cex)
             continue
         ch = written(L, o)
         good = len(ch) == 1 and isinstance(ch[0], tuple) and ch[0][0] == "display" and ch[0][1] is None and isinstance(ch[0][2], Int) and ch[0][2].bits == 128 and ch[0][2].signed
-        if not L.require(o, z3.BoolVal(good), "an integer prints as exactly one Display (decimal) rendering of an i128"):
+        if not L.require(o, z3.BoolVal(good), "an integer prints as exactly one Display (decimal) rendering of an i128", cex=cex):
             continue
-        L.require(o, ch[0][2].t == n.t, "the integer printed is the cell's value")
+        L.require(o, ch[0][2].t == n.t, "the integer printed is the cell's value", cex=cex)
 
 
 def print_bits_lemma(k, last_bits):
@@ -462,17 +471,25 @@ def print_bits_lemma(k, last_bits):
                 L.ex.overrides.pop(kx, None)
             L.ex.loop_bound = lb0
         L.witness(outs, lambda o: o.kind == "return" and o.value.variant == "Ok", "a bit-string prints")
+
+        def cex(m):
+            bits = ""
+            for x, nb in zip(xs, ns):
+                bits += format(m.eval(x, model_completion=True).as_long() & ((1 << nb) - 1), "0%db" % nb)
+            pad = bits + "0" * (-len(bits) % 8)
+            hx = "".join("%02x" % int(pad[i:i + 8], 2) for i in range(0, len(pad), 8)) or "00"
+            return {"lines": ["push bitstr %s 0 %d" % (hx, len(bits)), "stack"], "expect": [("no_panic",), ("print_bits_spec", bits)]}
         exp = []
         for x, n in zip(xs, ns):
             exp += [z3.Extract(0, 0, z3.LShR(x, i)) for i in range(n - 1, -1, -1)]
         for o in outs:
             if o.kind != "return" or o.value.variant != "Ok":
-                L.fail(o, "printing a bit-string neither panics nor fails")
+                L.fail(o, "printing a bit-string neither panics nor fails", cex=cex)
                 continue
             ch = written(L, o)
-            if not L.require(o, z3.BoolVal(all(not isinstance(c, tuple) for c in ch)), "a bit-string prints as plain characters (single hex digits, x, ., blanks, bars)"):
+            if not L.require(o, z3.BoolVal(all(not isinstance(c, tuple) for c in ch)), "a bit-string prints as plain characters (single hex digits, x, ., blanks, bars)", cex=cex):
                 continue
-            if not L.require(o, z3.BoolVal(len(ch) >= 2) if len(ch) < 2 else z3.And(ch[0] == CH("|"), ch[-1] == CH("|")), "the printed bit-string is delimited by `|`"):
+            if not L.require(o, z3.BoolVal(len(ch) >= 2) if len(ch) < 2 else z3.And(ch[0] == CH("|"), ch[-1] == CH("|")), "the printed bit-string is delimited by `|`", cex=cex):
                 continue
             # read the characters back with the literal rules (the lexer lemma's specification)
             got = []
@@ -481,7 +498,7 @@ def print_bits_lemma(k, last_bits):
                 hx, d = digit_value(c, 16)
                 kind = classify(L, o, c, [("hex", hx), ("ws", is_ws(c)), ("clr", c == CH(".")), ("set", c == CH("x"))])
                 if kind is None:
-                    L.fail(o, "every printed character is a hex digit, x, . or a blank")
+                    L.fail(o, "every printed character is a hex digit, x, . or a blank", cex=cex)
                     ok = False
                     break
                 if kind == "hex":
@@ -491,8 +508,8 @@ def print_bits_lemma(k, last_bits):
             if not ok:
                 continue
             same = z3.BoolVal(False) if len(got) != len(exp) else (z3.And(*[a == b for a, b in zip(got, exp)]) if exp else z3.BoolVal(True))
-            L.require(o, same, "reading the printed bit-string back gives the same bits (%d chunks, last %d bits)" % (k, last_bits))
-            L.require(o, z3.And(*[c != CH("|") for c in ch[1:-1]]) if len(ch) > 2 else z3.BoolVal(True), "no `|` inside the printed bit-string")
+            L.require(o, same, "reading the printed bit-string back gives the same bits (%d chunks, last %d bits)" % (k, last_bits), cex=cex)
+            L.require(o, z3.And(*[c != CH("|") for c in ch[1:-1]]) if len(ch) > 2 else z3.BoolVal(True), "no `|` inside the printed bit-string", cex=cex)
     return body
 
 
@@ -608,6 +625,13 @@ def run(L, tier, only=None):
         if not only or nm in only or "step" in only:
             L.lemma("C16 Lex::next, %d chars consumed, %d left" % (kb, ka), step_lemma(kb, ka))
     DEC, HEX, BIN = [("0", "9")], [("0", "9"), ("a", "f"), ("A", "F")], [("0", "1")]
+    # bit-string literals at every in-byte alignment: `|`, k single-bit characters, h hex digits, `|`
+    BIT1, HEXC, BAR = [("x", "x"), (".", ".")], [("0", "9"), ("a", "f"), ("A", "F")], [("|", "|")]
+    for k in (range(0, 9) if tier != "quick" else (0, 3, 5, 7)):
+        for h in ((1, 2) if tier != "quick" else (2,)):
+            nm = "bits%d_%d" % (k, h)
+            if not only or nm in only or "bits" in only:
+                L.lemma("C16 bit-string literal, %d single bits then %d hex digits" % (k, h), step_lemma(0, k + h + 2, [BAR] + [BIT1] * k + [HEXC] * h + [BAR]))
     # (digits, prefix, alphabet, from_str_radix uninterpreted?)
     longs = [(39, ["-", "123456789"], DEC, True), (16, ["-", "123456789"], DEC, False), (33, ["-", "0", "x"], HEX, False)]
     if tier != "quick":
